@@ -585,6 +585,14 @@ def r7(ctx):
                 continue                                    # a[i][j]: element j of row view i, the same element as a[i, j]
             if isinstance(n, ast.Subscript) and not isinstance(n.value, (ast.Name, ast.Attribute)):
                 unknown.append((None, f"subscript of an expression `{unparse(n, 50)}`"))
+        for n in Resolver.walk_own(fi.node):
+            # a / b, a // b, a % b: compiled code raises ZeroDivisionError (Numba's default error model) where NumPy scalars give
+            # inf / nan and a warning - the two agree only when the divisor cannot be zero, which is decided for literals only
+            if isinstance(n, ast.BinOp) and isinstance(n.op, (ast.Div, ast.FloorDiv, ast.Mod)) and not (
+                    isinstance(n.right, ast.Constant) and isinstance(n.right.value, (int, float)) and n.right.value != 0) and not (
+                    isinstance(n.right, ast.Name) and n.right.id in fi.own_params and fi.param_annotation(n.right.id) is not None
+                    and unparse(fi.param_annotation(n.right.id)) == "int"):       # (a Python int divisor raises in both worlds)
+                unknown.append((None, f"division by a run-time value `{unparse(n, 50)}`"))
         if unknown:
             what = ", ".join(sorted({w for _c, w in unknown}))
             ctx.unrecognised(fi, f"the kernel uses {what}: agreement of Numba and NumPy for the argument kinds used here is not modelled",
